@@ -175,6 +175,12 @@ def length_sweep(binpath, res):
     for n in (0, 1, 49, 50, 51, 52, 63, 64, 65, 128, 200):
         for pl in (9999, 10000, 65535, 65536, 100000):
             pairs.append(["t" * n, (bytes([0x30 + (pl % 10)]) * pl).hex()])
+    # types that merely begin with (or end like, or contain) a type the library knows about are types of their own
+    known = ["link", "https://in-toto.io/Statement/v0.1", "application/vnd.in-toto+json", "https://in-toto.io/statement/v0.1"]
+    for kt in known:
+        for t2 in (kt, kt + "s", kt + " 2", kt + "0", kt + "/", kt + "\n", "x" + kt, kt[:-1], kt.upper(), kt + kt, " " + kt, kt + " "):
+            for pay in (b"", b"payload", b"4 link"):
+                pairs.append([t2, pay.hex()])
     # two types that differ only in their last character, same payload: distinct packings
     for n in (40, 50, 54, 60, 64, 70, 100, 150):
         pairs.append(["t" * n + "A", b"same".hex()])
